@@ -30,30 +30,94 @@ Proof.
   rewrite ip_generic, sp_generic. split; [reflexivity|]. split; [lia|]. intros ->. cbn [negb andb] in Eb. lia.
 Qed.
 
-(* no PE module: the PE generic path (frame-register restores, machine frames, ip never updated)
-   is outside the progress theorems - known finding S9b *)
-Definition no_pe (l : list xmodule) : Prop := forall md, In md l -> forall pe, mdat md <> MPe pe.
+(* PE: an uncacheable step passed uncacheable_step's progress checks; a failed step hands back the
+   entry registers (both since the repairs of S9b / S9c) *)
+Definition unc_shape (first : bool) (rg : regs) (cr : cb_result rule regs) : Prop :=
+  match cr with
+  | CbUncacheable ra rg' =>
+      ip rg' = ra /\ ~ (sp rg' = sp rg /\ ra = ip rg) /\ (first = false -> sp rg < sp rg')
+  | _ => True
+  end.
+
+Lemma pe_uncacheable_shape first rg ra rg' : unc_shape first rg (pe_uncacheable first rg ra rg').
+Proof.
+  unfold pe_uncacheable. destruct ((sp rg' =? sp rg) && (ra =? ip rg)) eqn:Ea; [exact I|].
+  destruct (negb first && (sp rg' <=? sp rg)) eqn:Eb; [exact I|].
+  cbn [unc_shape]. split; [reflexivity|]. split.
+  - change (sp (set_ip rg' ra)) with (sp rg'). lia.
+  - intros ->. change (sp (set_ip rg' ra)) with (sp rg'). cbn [negb andb] in Eb. lia.
+Qed.
+
+Lemma final_pop_shape c first rg rg1 m : unc_shape first rg (final_pop c first rg rg1 m).
+Proof.
+  unfold final_pop. destruct (m (sp rg1)); [|exact I].
+  destruct (sp rg1 + 8 <? W64); [apply pe_uncacheable_shape|]. destruct c; exact I.
+Qed.
+
+Lemma pe_step_raw_shape pe address first rg m : unc_shape first rg (fst (pe_step_raw true pe address first rg m)).
+Proof.
+  unfold pe_step_raw.
+  destruct (pe_lookup (pe_funcs pe) address None) as [f|]; [|exact I].
+  destruct (ui_at (pe_uinfos pe) (rt_uinfo f)) as [u0| |]; try exact I.
+  assert (TAIL : unc_shape first rg (fst
+    match chain_infos CHAIN_LIMIT pe u0 with
+    | Hang => (CbHang, pe_eff_alloc)
+    | Ok None => (CbErr rg, pe_eff_alloc)
+    | Ok (Some infos) =>
+      if address <? rt_begin f then (CbPanic S_pe_own_sub, pe_eff_alloc)
+      else
+        let ops := all_ops (address - rt_begin f) infos in
+        match rule_for_sequence (map oop_of_uop ops) with
+        | Some (Ok r) => (CbRule r, pe_eff_alloc)
+        | Some (Panic s) => (CbPanic s, pe_eff_alloc)
+        | Some _ => (CbHang, pe_eff_alloc)
+        | None =>
+          match run_ops_pe u0 ops rg m with
+          | OpCont rg' => (final_pop true first rg rg' m, pe_eff_alloc)
+          | OpBreak ra rg' => (pe_uncacheable first rg ra rg', pe_eff_alloc)
+          | OpNoStack rg' => (CbErrV rg', pe_eff_alloc)
+          | OpPanic => (CbPanic S_pe_dep, pe_eff_alloc)
+          end
+        end
+    | _ => (CbHang, pe_eff_alloc)
+    end)).
+  { destruct (chain_infos CHAIN_LIMIT pe u0) as [[infos|]|e|s|]; try exact I.
+    destruct (address <? rt_begin f); [exact I|]. cbv zeta.
+    destruct (rule_for_sequence (map oop_of_uop (all_ops (address - rt_begin f) infos))) as [[r|e|s|]|]; try exact I.
+    destruct (run_ops_pe u0 (all_ops (address - rt_begin f) infos) rg m); cbn [fst]; try exact I.
+    - apply final_pop_shape.
+    - apply pe_uncacheable_shape. }
+  destruct first; [|exact TAIL].
+  destruct (rt_end f <? address); [exact I|].
+  destruct (pe_text pe) as [[[lo hi] bytes]|]; [|exact I].
+  destruct ((lo <=? address) && (address <? hi)); [|exact I].
+  destruct (Nat.ltb (length bytes) (N.to_nat (address - lo))); [exact I|]. cbv zeta.
+  destruct (Nat.ltb _ _); [exact I|].
+  destruct (eparse_sequence _ (ui_fpreg u0)) as [insns|]; [|exact TAIL].
+  destruct (rule_for_sequence (map oop_of_einsn insns)) as [[r|e|s|]|]; try exact I.
+  destruct (run_epilog true u0 insns rg m); cbn [fst]; try exact I.
+  - apply final_pop_shape.
+  - apply pe_uncacheable_shape.
+Qed.
 
 Lemma cb_x86_shape md first rel rg m :
-  (forall pe, mdat md <> MPe pe) ->
   match fst (cb_x86 md first rel rg m) with
   | CbUncacheable ra rg' =>
       ip rg' = ra /\ ~ (sp rg' = sp rg /\ ra = ip rg) /\ (first = false -> sp rg < sp rg')
   | CbErr rg1 | CbErrV rg1 => rg1 = rg
-  | CbRule _ => True
-  | CbPanic s => s = S_dwarf_svma_add
-  | CbHang => False
+  | _ => True
   end.
 Proof.
-  intros Hnope. unfold cb_x86. destruct (mdat md) as [|p sec|pe]; [reflexivity| |exfalso; eapply Hnope; reflexivity]. unfold cb_dwarf.
+  unfold cb_x86. destruct (mdat md) as [|p sec|pe]; [reflexivity| |].
+  2:{ pose proof (pe_step_raw_shape pe rel first rg m) as H. unfold pe_step. cbn [fst].
+      destruct (fst (pe_step_raw true pe rel first rg m)); cbn [pe_restore unc_shape] in *; auto. }
+  unfold cb_dwarf.
   assert (W : forall f svma,
     match with_fde rule regs row_step_x86 uncovered_rule_x86 f svma first rg m with
     | CbUncacheable ra rg' =>
         ip rg' = ra /\ ~ (sp rg' = sp rg /\ ra = ip rg) /\ (first = false -> sp rg < sp rg')
     | CbErr rg1 | CbErrV rg1 => rg1 = rg
-    | CbRule _ => True
-    | CbPanic s => s = S_dwarf_svma_add
-    | CbHang => False end).
+    | _ => True end).
   { intros f svma. unfold with_fde. destruct (row_for_address f svma) as [rw|]; [|exact I].
     unfold row_step_x86. destruct (translate_x86 rw); [exact I|].
     pose proof (generic_x86_shape rw first rg m) as H.
@@ -63,21 +127,19 @@ Proof.
     destruct (hdr_lookup sec (base_svma md + rel)); cbn; [apply W | reflexivity].
   - destruct (index_build sec (base_svma md)); cbn; [|reflexivity].
     destruct (index_lookup true l rel); cbn; [|reflexivity].
-    unfold add64p. destruct (base_svma md + rel <? W64); cbn; [apply W | reflexivity].
+    unfold add64p. destruct (base_svma md + rel <? W64); cbn; [apply W | exact I].
   - destruct (index_build sec (base_svma md)); cbn; [|reflexivity].
     destruct (index_lookup true l rel); cbn; [|reflexivity].
-    unfold add64p. destruct (base_svma md + rel <? W64); cbn; [apply W | reflexivity].
+    unfold add64p. destruct (base_svma md + rel <? W64); cbn; [apply W | exact I].
 Qed.
 
 (* ---------- C10: every successful caller-frame step ---------- *)
 Theorem caller_step_progress_x86 u c x rg m ra :
-  no_pe (mods _ u) ->
   o_res _ _ (unwind_frame_x u c (RA x) rg m) = Ok (Some ra) ->
   let rg' := o_regs _ _ (unwind_frame_x u c (RA x) rg m) in
   ra <> 0 /\ ip rg' = ra /\
   (sp rg < sp rg' \/ (sp rg' = sp rg /\ 8 <= sp rg' /\ m (sp rg' - 8) = Some ra /\ ra <> ip rg)).
 Proof.
-  intros Hnp.
   assert (EX : forall r rgi res rgo, exec ra_addr_checked r false rgi m = (res, rgo) -> res = Ok (Some ra) ->
                ra <> 0 /\ ip rgo = ra /\
                (sp rgi < sp rgo \/ (sp rgo = sp rgi /\ 8 <= sp rgo /\ m (sp rgo - 8) = Some ra /\ ra <> ip rgi))).
@@ -91,7 +153,7 @@ Proof.
   destruct (cache_lookup rule c a (gen _ u)) as [[r|slot] c1].
   - destruct (exec ra_addr_checked r false rg m) as [res rgo] eqn:E. cbn. intros H. eapply EX; eassumption.
   - destruct (find_module mdata (mods _ u) a) as [[[md rel]|]|e|s|] eqn:Efm; cbn; try discriminate.
-    + pose proof (cb_x86_shape md false rel rg m (Hnp md (find_module_in _ _ _ _ _ Efm))) as Hcb.
+    + pose proof (cb_x86_shape md false rel rg m) as Hcb.
       destruct (cb_x86 md false rel rg m) as [cr ef]. cbn [fst] in Hcb.
       destruct cr; cbn; try discriminate.
       * destruct (exec ra_addr_checked r false rg m) as [res rgo] eqn:E. cbn. intros H. eapply EX; eassumption.
@@ -104,7 +166,6 @@ Qed.
 
 (* two consecutive successful caller steps cannot both leave the stack pointer unchanged *)
 Theorem two_caller_steps_advance_x86 u c1 c2 x rg m ra1 ra2 :
-  no_pe (mods _ u) ->
   ip rg = x ->
   o_res _ _ (unwind_frame_x u c1 (RA x) rg m) = Ok (Some ra1) ->
   let rg1 := o_regs _ _ (unwind_frame_x u c1 (RA x) rg m) in
@@ -112,9 +173,9 @@ Theorem two_caller_steps_advance_x86 u c1 c2 x rg m ra1 ra2 :
   let rg2 := o_regs _ _ (unwind_frame_x u c2 (RA ra1) rg1 m) in
   sp rg < sp rg2.
 Proof.
-  intros Hnp Hip H1 rg1 H2 rg2.
-  pose proof (caller_step_progress_x86 u c1 x rg m ra1 Hnp H1) as HH1. cbv zeta in HH1. destruct HH1 as (N1 & I1 & P1).
-  pose proof (caller_step_progress_x86 u c2 ra1 rg1 m ra2 Hnp H2) as HH2. cbv zeta in HH2. destruct HH2 as (N2 & I2 & P2).
+  intros Hip H1 rg1 H2 rg2.
+  pose proof (caller_step_progress_x86 u c1 x rg m ra1 H1) as HH1. cbv zeta in HH1. destruct HH1 as (N1 & I1 & P1).
+  pose proof (caller_step_progress_x86 u c2 ra1 rg1 m ra2 H2) as HH2. cbv zeta in HH2. destruct HH2 as (N2 & I2 & P2).
   fold rg1 in I1, P1. fold rg2 in I2, P2.
   destruct P1 as [P1|(E1 & L1 & M1 & D1)]; destruct P2 as [P2|(E2 & L2 & M2 & D2)]; try lia.
   exfalso. rewrite E2 in M2. rewrite M1 in M2. inversion M2 as [Heq]. apply D2. rewrite <- Heq. symmetry. exact I1.
@@ -122,14 +183,13 @@ Qed.
 
 (* a single successful caller step never reproduces its own state *)
 Theorem caller_step_no_self_loop_x86 u c x rg m ra :
-  no_pe (mods _ u) ->
   ip rg = x ->
   o_res _ _ (unwind_frame_x u c (RA x) rg m) = Ok (Some ra) ->
   let rg' := o_regs _ _ (unwind_frame_x u c (RA x) rg m) in
   ~ (ra = x /\ sp rg' = sp rg).
 Proof.
-  intros Hnp Hip H rg' [Hra Hsp].
-  pose proof (caller_step_progress_x86 u c x rg m ra Hnp H) as HH1. cbv zeta in HH1. destruct HH1 as (N1 & I1 & P1). fold rg' in I1, P1.
+  intros Hip H rg' [Hra Hsp].
+  pose proof (caller_step_progress_x86 u c x rg m ra H) as HH1. cbv zeta in HH1. destruct HH1 as (N1 & I1 & P1). fold rg' in I1, P1.
   destruct P1 as [P1|(E1 & L1 & M1 & D1)]; [lia|]. apply D1. congruence.
 Qed.
 
